@@ -125,7 +125,21 @@ func confusable(r *rand.Rand, id string) string {
 		}
 		return sb.String()
 	}
-	switch r.Intn(12) {
+	switch r.Intn(16) {
+	case 12:
+		if len(id) > 1 {
+			return id[:len(id)-1] // a proper prefix
+		}
+		return id + "x"
+	case 13:
+		return id + "x"
+	case 14:
+		return "x" + id
+	case 15:
+		if len(id) > 1 {
+			return id[1:] // a proper suffix
+		}
+		return "y" + id
 	case 0:
 		return esc(true)
 	case 1:
